@@ -16,6 +16,22 @@ theorem InRange.raw {ν : NumModel} {o : Operation ν} (h : InRange ν o) :
   | @skill c n hc hn =>
     exact ⟨.skill c n, by simp [rawOk, hc, hn], rfl, rfl, rfl⟩
 
+/-- … and its time, if it has one, is finite -/
+theorem InRange.raw' {ν : NumModel} {o : Operation ν} (h : InRange ν o) :
+    ∃ r : RawCmd, rawOk r = true ∧ r.isOp = true ∧ renderRaw r = o.expr ∧ interp ν r = .op o ∧
+      timeFinite ν r = true := by
+  cases h with
+  | @full c n t hc hn ht =>
+    refine ⟨.full c n (ν.repr t), by simp [rawOk, hc, hn, ht.tok], rfl, rfl, ?_, ?_⟩
+    · simp [interp, ht.roundtrip]
+    · simp [timeFinite, ht.roundtrip, ht.fin]
+  | @time c t hc ht =>
+    refine ⟨.time c (ν.repr t), by simp [rawOk, hc, ht.tok], rfl, rfl, ?_, ?_⟩
+    · simp [interp, ht.roundtrip]
+    · simp [timeFinite, ht.roundtrip, ht.fin]
+  | @skill c n hc hn =>
+    exact ⟨.skill c n, by simp [rawOk, hc, hn], rfl, rfl, rfl, rfl⟩
+
 /-- a single command in the canonical layout parses to itself (also for the command word `x`) -/
 theorem parse_single (r : RawCmd) (h : rawOk r = true) : parseRaw (renderRaw r) = .ok [r] := by
   have hsep : separated (rawToks r) = true := by
@@ -58,6 +74,45 @@ theorem CmdInRange.raw {ν : NumModel} {c : Command ν} (h : CmdInRange ν c) :
     | @skill c n hc hn =>
       exact ⟨.skill c n, by simp [rawOk, hc, hn], rfl, rfl, rfl⟩
   | @console s hs => exact ⟨.console s, by simpa [rawOk] using hs, rfl, rfl, rfl⟩
+
+theorem CmdInRange.raw' {ν : NumModel} {c : Command ν} (h : CmdInRange ν c) :
+    ∃ r : RawCmd, rawOk r = true ∧ rawXfree r = true ∧ renderRaw r = renderCmd c ∧ interp ν r = c ∧
+      timeFinite ν r = true := by
+  cases h with
+  | @op o ho hx =>
+    cases ho with
+    | @full c n t hc hn ht =>
+      refine ⟨.full c n (ν.repr t), by simp [rawOk, hc, hn, ht.tok], rfl, rfl, ?_, ?_⟩
+      · simp [interp, ht.roundtrip]
+      · simp [timeFinite, ht.roundtrip, ht.fin]
+    | @time c t hc ht =>
+      refine ⟨.time c (ν.repr t), by simp [rawOk, hc, ht.tok], ?_, rfl, ?_, ?_⟩
+      · simpa [rawXfree, mkTime] using hx
+      · simp [interp, ht.roundtrip]
+      · simp [timeFinite, ht.roundtrip, ht.fin]
+    | @skill c n hc hn =>
+      exact ⟨.skill c n, by simp [rawOk, hc, hn], rfl, rfl, rfl, rfl⟩
+  | @console s hs => exact ⟨.console s, by simpa [rawOk] using hs, rfl, rfl, rfl, rfl⟩
+
+theorem cmds_raw' {ν : NumModel} : ∀ (cmds : List (Command ν)), (∀ c ∈ cmds, CmdInRange ν c) →
+    ∃ rs : List RawCmd, (∀ r ∈ rs, rawOk r = true) ∧ (∀ r ∈ rs, rawXfree r = true) ∧
+      rs.map renderRaw = cmds.map renderCmd ∧ rs.map (interp ν) = cmds ∧ rs.length = cmds.length ∧
+      rs.all (timeFinite ν) = true
+  | [], _ => ⟨[], by simp, by simp, rfl, rfl, rfl, rfl⟩
+  | c :: cs, h => by
+    obtain ⟨r, h1, h2, h3, h4, h5⟩ := (h c (by simp)).raw'
+    obtain ⟨rs, g1, g2, g3, g4, g5, g6⟩ := cmds_raw' cs (fun x hx => h x (List.mem_cons_of_mem _ hx))
+    refine ⟨r :: rs, ?_, ?_, by simp [h3, g3], by simp [h4, g4], by simp [g5], by simp [h5, g6]⟩
+    · intro x hx; rcases List.mem_cons.mp hx with rfl | hx
+      · exact h1
+      · exact g1 x hx
+    · intro x hx; rcases List.mem_cons.mp hx with rfl | hx
+      · exact h2
+      · exact g2 x hx
+
+theorem interpAll_ok {ν : NumModel} {rs : List RawCmd} (h : rs.all (timeFinite ν) = true) :
+    interpAll ν rs = .ok (rs.map (interp ν)) := by
+  simp [interpAll, h]
 
 theorem cmds_raw {ν : NumModel} : ∀ (cmds : List (Command ν)), (∀ c ∈ cmds, CmdInRange ν c) →
     ∃ rs : List RawCmd, (∀ r ∈ rs, rawOk r = true) ∧ (∀ r ∈ rs, rawXfree r = true) ∧
